@@ -115,6 +115,13 @@ class Replayer:
         try:
             if op == "Create":
                 m.create_agent(h["ty"], A.prop_v(h["v"], h.get("w")))
+            elif op == "CreateFail":
+                m._fail_next = True
+                try:
+                    m.create_agent(h["ty"], A.prop_v(2))
+                except RuntimeError:
+                    pass
+                m._fail_next = False
             elif op == "Delete":
                 ids = list(h["ids"])
                 # "delete all agents of a type" is written the way users write it: with the list agent_ids() returned
